@@ -26,7 +26,8 @@ META = {
             "{CASE, SUITE, COMBINED} x direction x metrics in {BRANCH, LINE, BRANCH+LINE} x assertions on/off. Non-trivial = minimisation "
             "removed >= 1 statement and kept >= 1; distinct by the whole case",
     "assumptions": ["coverage values are those of pynguin's suite coverage functions evaluated on fresh clones (C10/C11 check these functions)",
-                    "the origin of a minimized test is decided existentially (any original test it embeds into)"],
+                    "the origin of a minimized test is decided existentially (any original test it embeds into)",
+                    "coverage obtained by merely importing the module is credited to both suites (also to an empty one)"],
     "level_text": "Generated suites and minimisation configurations; coverage recomputed from scratch before and after. Exploration, not proof.",
     "level_note": "Trusted: vf.session wiring equals generator._run; executor determinism on the corpus modules.",
 }
@@ -47,6 +48,7 @@ def strategy(ctx):
         "algo": st.sampled_from(["MOSA", "WHOLE_SUITE", "MIO", "RANDOM"]),
         "tests": st.lists(st.tuples(st.integers(0, 10**6), st.integers(3, 12)).map(list), min_size=2, max_size=6),
         "iterations": st.integers(2, 6),
+        "rebind": st.one_of(st.just([]), st.lists(st.integers(0, 11), min_size=4, max_size=8)),
         "metrics": st.sampled_from([["BRANCH"], ["LINE"], ["BRANCH", "LINE"]]),
         "assertions": st.booleans(),
         "strategy": st.sampled_from(["CASE", "SUITE", "COMBINED"]),
@@ -93,6 +95,13 @@ def _child(case: dict[str, Any]) -> dict[str, Any]:
             suite = s.suite(chroms)
             for f in s.algorithm.test_suite_coverage_functions:
                 suite.add_coverage_function(f)
+        if case.get("rebind"):
+            # tests that re-bind variable names (hand-written / seeded / LLM tests do; the factory never does)
+            from vf.rebind import rebind
+
+            rebound = [s.chromosome(rebind(ch.test_case, case["rebind"])[0]) for ch in suite.test_case_chromosomes]
+            cov_functions = list(suite.get_coverage_functions()) if hasattr(suite, "get_coverage_functions") else []
+            suite = s.suite(rebound, coverage_functions=cov_functions or list(s.algorithm.test_suite_coverage_functions))
         s.executor.clear_observers()
         s.executor.clear_remote_observers()
         gen._generate_assertions(s.executor, suite, s.cluster)
@@ -101,7 +110,11 @@ def _child(case: dict[str, Any]) -> dict[str, Any]:
         timeouts = [0]
 
         def scratch_coverage() -> list[float]:
-            fresh = s.suite([s.chromosome(ch.test_case.clone()) for ch in suite.test_case_chromosomes], coverage_functions=cov_fns)
+            # An empty test case is always appended: pynguin credits what importing the module covers only to suites with at
+            # least one test case, while the exported file of an empty suite still imports the module (test_empty); without
+            # it a suite minimized to nothing would "lose" exactly the import coverage.
+            members = [s.chromosome(ch.test_case.clone()) for ch in suite.test_case_chromosomes] + [s.chromosome(s.new_test_case())]
+            fresh = s.suite(members, coverage_functions=cov_fns)
             values = [fresh.get_coverage_for(f) for f in cov_fns]
             for ch in fresh.test_case_chromosomes:
                 r = ch.get_last_execution_result()
@@ -113,12 +126,22 @@ def _child(case: dict[str, Any]) -> dict[str, Any]:
             tests = []
             for ch in suite.test_case_chromosomes:
                 entries = []
-                # variables asserted on = roots of the (possibly dotted) sources of all reference assertions of the test
-                roots = {a.source.split(".")[0] for st_ in ch.test_case.statements() for a in st_.assertions
-                         if not isinstance(a, ExceptionAssertion) and isinstance(getattr(a, "source", None), str)}
-                for stmt in ch.test_case.statements():
+                # a statement is "asserted on" if an assertion (attached to it or to a later statement) refers to the
+                # variable it binds, i.e. it is the most recent binding of the root of the assertion's source
+                stmts = ch.test_case.statements()
+                asserted: set[int] = set()
+                for k, st_ in enumerate(stmts):
+                    for a in st_.assertions:
+                        if isinstance(a, ExceptionAssertion) or not isinstance(getattr(a, "source", None), str):
+                            continue
+                        root = a.source.split(".")[0]
+                        for j in range(k, -1, -1):
+                            if stmts[j].bound_variable == root:
+                                asserted.add(j)
+                                break
+                for j, stmt in enumerate(stmts):
                     code = cst.Module(body=[stmt.node]).code.strip()
-                    entries.append([code, 1 if stmt.bound_variable is not None and stmt.bound_variable in roots else 0])
+                    entries.append([code, 1 if j in asserted else 0])
                 tests.append(entries)
             return tests
 
@@ -180,6 +203,8 @@ def _analyse(case: dict[str, Any], res: dict[str, Any], out: Outcome) -> None:
     n_pre = sum(len(t) for t in pre_tests)
     n_post = sum(len(t) for t in post_tests)
     out.nontrivial = 0 < n_post < n_pre
+    if case.get("rebind"):
+        out.labels.append("class:rebinds-variable-names")
     out.labels += [f"strategy:{case['strategy']}", f"metrics:{'+'.join(case['metrics'])}",
                    "removed:statements" if n_post < n_pre else "removed:none",
                    "removed:tests" if len(post_tests) < len(pre_tests) else "tests:kept"]
